@@ -71,6 +71,25 @@ def cases(tier, seed):
         for env_ in ("tsp", "cvrp"):
             for r in range(reps * 2):
                 out.append(dict(cfg=dict(env=env_, n=rnd.choice([20, 50]), dist=gp["loc_distribution"]), gp=gp, B=64 if q else 256, s=rnd.randrange(10**6)))
+    # systematic pass over generator arguments that no other case sets (documented options): non-default ranges and switches
+    sweeps = [
+        ("atsp", dict(min_dist=0.5, max_dist=2.0), {}), ("atsp", dict(max_dist=3.0), dict(tmat=False)), ("atsp", dict(min_dist=0.2, max_dist=0.4), dict(tmat=False)),
+        ("cvrp", dict(min_demand=3, max_demand=5), {}), ("cvrp", dict(min_demand=1, max_demand=3, capacity=9), dict(capacity=9)), ("sdvrp", dict(min_demand=5, max_demand=9), {}),
+        ("cvrptw", dict(max_time=240, max_loc=60.0, scale=False), dict(scale=False)), ("cvrptw", dict(max_time=600, scale=True), dict(scale=True)), ("cvrptw", dict(max_loc=80.0, scale=False), dict(scale=False)),
+        ("svrp", dict(min_skill=2.0, max_skill=5.0), {}), ("svrp", dict(tech_costs=[1, 5]), {}), ("svrp", dict(tech_costs=[2, 3, 4, 9]), {}),
+        ("pctsp", dict(penalty_factor=1.0), {}), ("pctsp", dict(penalty_factor=6.0), {}), ("op", dict(max_length=1.5), dict(max_length=1.5)), ("op", dict(max_length=5.0, prize_type="unif"), dict(max_length=5.0, prize_type="unif")),
+        ("mtsp", dict(min_num_agents=1, max_num_agents=4), dict(agents=(1, 4))),
+        ("mtvrp", dict(variant_preset="all", scale_demand=False), dict(preset="all")), ("mtvrp", dict(variant_preset="vrpb", scale_demand=False), dict(preset="vrpb")),
+        ("mtvrp", dict(variant_preset="vrpb", backhaul_ratio=0.5), dict(preset="vrpb")), ("mtvrp", dict(variant_preset="ovrpbltw", backhaul_ratio=0.8, min_backhaul=2, max_backhaul=4), dict(preset="ovrpbltw")),
+        ("mtvrp", dict(variant_preset="all", capacity=55), dict(preset="all")), ("mtvrp", dict(variant_preset="cvrp", min_demand=3, max_demand=6), dict(preset="cvrp")),
+        ("mtvrp", dict(variant_preset="all", use_combinations=False), dict(preset="single_feat")), ("mtvrp", dict(variant_preset=None, subsample=False), dict(preset="ovrpbltw")),
+        ("mtvrp", dict(variant_preset="vrpl", distance_limit=2.9), dict(preset="vrpl")), ("mtvrp", dict(variant_preset="vrptw", max_time=6.0), dict(preset="vrptw")),
+        ("mtvrp", dict(variant_preset=None, subsample=True, use_combinations=True) if False else dict(variant_preset="vrpltw", distance_limit=3.5, max_time=5.0), dict(preset="vrpltw")),
+    ]
+    for env_, gp, extra in sweeps:
+        for r in range(reps * 2):
+            n_ = rnd.choice([6, 10, 20])
+            out.append(dict(cfg=dict(env=env_, n=n_, sweep="|".join(f"{k}={v}" for k, v in sorted(gp.items()) if k != "variant_preset"), **extra), gp=gp, B=16, s=rnd.randrange(10**6)))
     for sp in (0.5, 1.5, 2.0):
         for preset in ("vrptw", "vrpltw", "ovrpbltw", "all"):
             for r in range(reps):
